@@ -29,8 +29,8 @@
 // is not a violation.
 //
 // Chunk sizes: every value of [8192, 8192+4096) (all residues of the cipher
-// block, 256 times over) and 2^k + {-2..2} for k = 13..24 are enumerated
-// (TestResidues, split over shards); TestGenerated draws further sizes up to
+// block, 256 times over) and 2^k + {-2..2} for k = 13..24 (quick tier: 13..22) are
+// enumerated (TestResidues, split over shards); TestGenerated draws further sizes up to
 // 2^24.
 package c38
 
@@ -365,7 +365,8 @@ func enumChunks() []int {
 	for c := 8192; c < 8192+4096; c++ {
 		cs = append(cs, c)
 	}
-	for k := 13; k <= 24; k++ {
+	// quick tier: up to 2^22 (TestGenerated still draws sizes up to 2^24)
+	for k := 13; k <= ev.Pick(22, 24); k++ {
 		for d := -2; d <= 2; d++ {
 			if c := 1<<k + d; c >= 8192+4096 {
 				cs = append(cs, c)
@@ -427,13 +428,17 @@ func genCase(t *rapid.T) caseT {
 	case k < 2: // the residue window again, with drawn nonces
 		chunk = rapid.IntRange(8192, 8192+4095).Draw(t, "chunk")
 	case k < 4: // powers of two +- 2
-		chunk = 1<<rapid.IntRange(13, 24).Draw(t, "pow") + rapid.IntRange(-2, 2).Draw(t, "delta")
+		pow := rapid.IntRange(13, 19).Draw(t, "pow")
+		if rapid.IntRange(0, 99).Draw(t, "bigPow") < ev.Pick(4, 20) {
+			pow = rapid.IntRange(20, 24).Draw(t, "powBig")
+		}
+		chunk = 1<<pow + rapid.IntRange(-2, 2).Draw(t, "delta")
 		if chunk < 8192 {
 			chunk = 8192
 		}
 	case k < 8: // around a block boundary
-		kb := rapid.IntRange(13, 17).Draw(t, "blockBits")
-		if rapid.IntRange(0, 19).Draw(t, "far") == 0 {
+		kb := rapid.IntRange(13, 16).Draw(t, "blockBits")
+		if rapid.IntRange(0, 99).Draw(t, "far") < ev.Pick(2, 10) {
 			kb = rapid.IntRange(18, 22).Draw(t, "blockBitsFar")
 		}
 		blocks := (1<<kb)/16 + rapid.IntRange(0, (1<<kb)/16).Draw(t, "blocks")
@@ -441,9 +446,9 @@ func genCase(t *rapid.T) caseT {
 	default: // magnitude first (rapid's integer ranges favour small values), then the value
 		var k int
 		switch m := rapid.IntRange(0, 99).Draw(t, "mag"); {
-		case m < 50:
+		case m < ev.Pick(75, 50):
 			k = rapid.IntRange(13, 15).Draw(t, "bits")
-		case m < ev.Pick(94, 85):
+		case m < ev.Pick(98, 85):
 			k = rapid.IntRange(16, 19).Draw(t, "bits")
 		default:
 			k = rapid.IntRange(20, 23).Draw(t, "bits")
